@@ -1,4 +1,5 @@
 import Restic.Proofs.C10_Plan
+import Restic.Proofs.C10_Exact
 import Restic.Props.C09
 /-!
 # C10 — A full prune leaves no waste and reports accurate statistics
@@ -7,7 +8,7 @@ Theorems over `Restic.Model.Prune` (the same transcription as C09).
 -/
 namespace Restic.Props.C10
 open Restic.Model.Repo Restic.Model.Prune
-open Restic.Proofs.C09Select Restic.Proofs.C09Plan Restic.Proofs.C10Plan
+open Restic.Proofs.C09Select Restic.Proofs.C09Plan Restic.Proofs.C10Plan Restic.Proofs.C10Account Restic.Proofs.C10Exact
 
 /-! ## The repack loop is forced under full-prune options -/
 
@@ -62,6 +63,32 @@ theorem full_plan_no_waste (o : Opts) (used : List BlobH) (idx : List PB) (packs
   subst h
   exact ⟨pi, hpi, decide_full_no_waste (pl := pl0) hc hpl0⟩
 
+/-- **select_exactly_one**: after `packInfoFromIndex`, with `marks` the ghost record of the entries
+    the duplicate pass switched to "used": `unusedBlobs` of every pack counts exactly its entries
+    that are neither the only entry of a used blob nor a selected duplicate; every used blob has
+    exactly one entry counted as used; unused blobs have none. -/
+theorem select_exactly_one (used : List BlobH) (idx : List PB) (st : Stats) (pi : PackInfoResult)
+    (h : packInfoFromIndex used idx st = .ok pi) :
+    pi.marks.length = idx.length ∧
+    (∀ p, ((pi.ip p).getD {}).unusedBlobs = (idx.zip pi.marks).countP (unmarkedP (countPass used idx).f p)) ∧
+    (∀ b ∈ used, (idx.zip pi.marks).countP (usedMark (countPass used idx).f b) = 1) ∧
+    (∀ b, b ∉ used → (idx.zip pi.marks).countP (usedMark (countPass used idx).f b) = 0) :=
+  let a := packInfo_account h
+  ⟨a.len, a.unused, a.one, a.none⟩
+
+/-- **full_prune_exact** (index part of C10, at plan level): under full-prune options (every
+    candidate repacked, no `--repack-cacheable-only`), for every index order, listing and
+    duplicate constellation, the index after the prune — the entries of the packs that stay plus
+    one entry per repacked blob — lists (i) only blobs reachable from snapshots, (ii) every such
+    blob exactly once, and (iv) no entry for a missing pack. (iii) is `unindexed_removed` +
+    `C09.plan_ok`: packs without index entry are deleted first.) -/
+theorem full_prune_exact (o : Opts) (used : List BlobH) (idx : List PB) (packs : List (ID × Nat)) (pl : Plan)
+    (hnd : used.Nodup) (hc : o.repackCacheableOnly = false)
+    (h : planPrune o (fun _ => true) used idx packs = .ok pl) :
+    (∀ b ∈ afterBlobs pl idx, b ∈ used) ∧ (∀ b ∈ used, (afterBlobs pl idx).count b = 1) ∧
+    (∀ x ∈ idx, keptB pl x.pack = true → x.pack ∈ packs.map (·.1)) :=
+  Restic.Proofs.C10Exact.full_prune_exact hnd hc h
+
 /-- unindexed packs are deleted first, whatever the options -/
 theorem unindexed_removed (o : Opts) (choice : ID → Bool) (used : List BlobH) (idx : List PB)
     (packs : List (ID × Nat)) (pl : Plan) (hN : (packs.map (·.1)).Nodup)
@@ -87,5 +114,24 @@ theorem totals_identities (st : Stats) :
     t.pTotal = st.pUsed + st.pPartly + st.pUnused + st.pUnref ∧
     t.pRemoveTotal = st.pUnref + st.pRemove := by
   simp [totals]
+
+/-! ## Non-vacuity -/
+
+section Examples
+private def bD (s : String) : BlobH := { tpe := .data, id := s }
+private def en (p : ID) (b : String) (len : Nat) : PB := { pack := p, e := { blob := bD b, off := 0, len := len, unc := true } }
+/-- P: b (duplicate) + unused u1; Q: b + unused u2 + c; R: d only (kept). Used: b, c, d. -/
+private def exIdx : List PB := [en "P" "b" 100, en "P" "u1" 50, en "Q" "b" 100, en "Q" "u2" 70, en "Q" "c" 30, en "R" "d" 10]
+private def exPacks : List (ID × Nat) := [("P", 36 + 2 * 37 + 150), ("Q", 36 + 3 * 37 + 200), ("R", 36 + 37 + 10), ("Z", 99)]
+private def exOpts : Opts := { maxUnusedZero := true, smallPackBytes := 1 }
+
+example :
+    (match planPrune exOpts (fun _ => true) [bD "b", bD "c", bD "d"] exIdx exPacks with
+     | .ok pl => pl.removeFirst == ["Z"] && pl.remove == ["P"] && pl.repack == ["Q"] &&
+                 afterBlobs pl exIdx == [bD "d", bD "b", bD "c"] &&
+                 pl.stats.bUsed == 3 && pl.stats.bDup == 1 && pl.stats.bUnused == 2 && pl.stats.bTotal == 6 &&
+                 pl.stats.bRemain == 3 && pl.stats.sUnref == 99 && pl.stats.pKeep == 1
+     | .error _ => false) = true := by decide
+end Examples
 
 end Restic.Props.C10
